@@ -27,18 +27,6 @@ theorem rd32_le32 (n : Nat) (h : n < 4294967296) (rest : Bytes) : rd32 (le32 n +
   simp only [le32, rd32, List.cons_append, List.nil_append, byte_toNat]
   omega
 
-/-- a record as `PacketWriter` produces it for a reader with snapshot length `snap` -/
-structure RecWf (snap : Nat) (r : Rec) : Prop where
-  sec : r.sec < 4294967296
-  usec : r.usec < 4294967296
-  len : r.len < 4294967296
-  data : r.data.length = r.caplen
-  cap : r.caplen ≤ snap
-
-/-- the frame libpcap delivers for a stored record -/
-def frameOfRec (r : Rec) : Frame :=
-  { tv := ⟨toI32 r.sec, toI32 r.usec⟩, caplen := r.caplen, len := r.len, data := r.data }
-
 theorem le32_length (n : Nat) : (le32 n).length = 4 := rfl
 
 theorem readRecs_cons (snap fuel : Nat) (hsnap : snap ≤ maxSnaplen) (r : Rec) (hwf : RecWf snap r) (rest : Bytes) :
@@ -143,6 +131,10 @@ theorem openFile_encodeFile (dlt snap : Nat) (hdlt : dltToLinktype dlt < 65536)
   simp only [openFile, h24, hmagic, hver, hsnap, hlt, hd24, hsel, hread]
   simp [Nat.mod_eq_of_lt hdlt, hrt]
 
+/-- the byte-level model of this file satisfies the facts the theorems assume about libpcap's savefile code -/
+theorem modelSavefile_facts : SavefileFacts modelSavefile :=
+  ⟨fun dlt snap hdlt hrt hs0 hs1 recs hwf => openFile_encodeFile dlt snap hdlt hrt hs0 hs1 recs hwf⟩
+
 /-! ### the writer's records -/
 
 theorem writerSnaplen_pos : 0 < writerSnaplen := by decide
@@ -196,5 +188,67 @@ theorem frame_ts (w : Written) (hus : w.ts.us < 18446744073709551616) : w.frame.
     simp only [Frame.ts, Written.frame, hw] at this ⊢
     cases h2 : Timestamp.ofTimeval ⟨(Timestamp.mk us).seconds, (Timestamp.mk us).microseconds⟩ with
     | mk us' => rw [h2] at this; simp at this; rw [this]
+
+/-! ### the writer as a state machine -/
+
+/-- the record `write(pdu, tv)` dumps for one element of the specification's list -/
+def recFor (e : Timeval × Item) : Rec := writePdu e.1 e.2.ser e.2.adv
+
+theorem writeRange_recs : ∀ (xs : List (Timeval × Item)) (w : WriterSt),
+    (w.writeRange xs).recs = w.recs ++ xs.map recFor ∧ (w.writeRange xs).dlt = w.dlt := by
+  intro xs
+  induction xs with
+  | nil => intro w; simp [WriterSt.writeRange]
+  | cons x xs ih =>
+    intro w
+    obtain ⟨now, it⟩ := x
+    have := ih (w.writePduNow now it)
+    simp only [WriterSt.writeRange]
+    rw [this.1, this.2]
+    simp [WriterSt.writePduNow, recFor]
+
+theorem call_recs (w : WriterSt) (c : WCall) :
+    (w.call c).1.recs = w.recs ++ c.written.map recFor ∧ (w.call c).1.dlt = w.dlt := by
+  cases c with
+  | pdu now x => simp [WriterSt.call, WriterSt.writePduNow, WCall.written, recFor]
+  | packet ts x => simp [WriterSt.call, WriterSt.writePkt, WCall.written, recFor, writePacket]
+  | range xs => simpa [WriterSt.call, WCall.written] using writeRange_recs xs w
+  | moveConstruct => simp [WriterSt.call, writerMoveConstruct, writerMoveAssign, WCall.written]
+  | moveAssignInto other => simp [WriterSt.call, writerMoveAssign, WCall.written]
+
+/-- any interleaving of write calls and moves: the open file holds, in order, one record per element the calls
+    asked to write, and nothing else; the link type never changes -/
+theorem run_recs : ∀ (calls : List WCall) (w : WriterSt),
+    (w.run calls).recs = w.recs ++ (calls.flatMap WCall.written).map recFor ∧ (w.run calls).dlt = w.dlt := by
+  intro calls
+  induction calls with
+  | nil => intro w; simp [WriterSt.run]
+  | cons c cs ih =>
+    intro w
+    have h1 := call_recs w c
+    have h2 := ih (w.call c).1
+    simp only [WriterSt.run, h2, h1, List.flatMap_cons, List.map_append, List.append_assoc]
+    simp
+
+theorem recFor_wf (e : Timeval × Item) (h : Storable e) : RecWf writerSnaplen (recFor e) := by
+  obtain ⟨_, _, _, _, hser⟩ := h
+  have hmax := writerSnaplen_le_max
+  unfold maxSnaplen at hmax
+  have hcl : wrap32 e.2.ser.length = e.2.ser.length := by unfold wrap32; omega
+  refine ⟨?_, ?_, ?_, ?_, ?_⟩
+  · simp only [recFor, writePdu, low32]; omega
+  · simp only [recFor, writePdu, low32]; omega
+  · simp only [recFor, writePdu, wrap32]; omega
+  · simp only [recFor, writePdu, hcl, List.take_length]
+  · simp only [recFor, writePdu, hcl]; exact hser
+
+theorem frameOfRec_recFor (e : Timeval × Item) (h : Storable e) : frameOfRec (recFor e) = frameFor e := by
+  obtain ⟨h1, h2, h3, h4, hser⟩ := h
+  have hmax := writerSnaplen_le_max
+  unfold maxSnaplen at hmax
+  have hcl : wrap32 e.2.ser.length = e.2.ser.length := by unfold wrap32; omega
+  have a1 : toI32 (low32 e.1.sec) = e.1.sec := by unfold toI32 low32; split <;> omega
+  have a2 : toI32 (low32 e.1.usec) = e.1.usec := by unfold toI32 low32; split <;> omega
+  simp only [frameOfRec, recFor, writePdu, frameFor, hcl, List.take_length, a1, a2]
 
 end Tins.Capture
